@@ -45,6 +45,19 @@ def apply_unified_diff(repo: str, difftext: str) -> Optional[Dict[str, str]]:
             hm = re.match(r"@@ -(\d+)(?:,(\d+))? \+", hunks[i])
             start = int(hm.group(1)) - 1
             body = hunks[i + 1].split("\n")[1:]
+            # like `git apply`: the hunk may have moved (another change in the file shifted the lines) - look for its old text nearby
+            want = [ln[1:] for ln in body if ln.startswith("-") or ln.startswith(" ")]
+            while want and want[-1] == "" and body and body[-1] == "":
+                break
+            if want:
+                def fits(at):
+                    return at >= pos and lines[at:at + len(want)] == want
+                if not fits(start):
+                    trimmed = want
+                    for off in sorted(range(-80, 81), key=abs):
+                        if fits(start + off):
+                            start = start + off
+                            break
             if start < pos:
                 return None
             out += lines[pos:start]
